@@ -7,6 +7,8 @@ from pathlib import Path
 
 sys.path.insert(0, str(Path(__file__).resolve().parent))
 import common  # noqa: E402
+import logging  # noqa: E402
+logging.disable(logging.CRITICAL)   # the library logs every worker death/exception of the driven scenarios
 
 
 def main():
